@@ -124,9 +124,9 @@ fn check(rep: &Report, acc: &mut Acc, it: &Item, rank: u64) {
 
 pub fn run(tier: Tier) -> i32 {
     let rep = Report::new("C19", tier);
-    rep.set_rule("corpus = every packet the real encapsulator produces in the small regimes: encap over PDU lengths 0..=12 x buffers 0..=32 x labels {6B, 3B, broadcast, explicit re-use} x prior {fresh, same label (substitution)} x fragment ids (all 256 for PDU length <= 2, else 3), encap_frag over every position and buffer for PDU lengths 0..=12 x all 256 ids (for small cells), encap_ext over all chains of length <= 2 (thorough 3) x labels x buffers; each packet alone and followed by 6 tails; peek and decap run on the same receiver (context primed for continuation packets); distinct = (kind, label type, peek result)");
+    rep.set_rule("corpus = every packet the real encapsulator produces in the small regimes: encap over PDU lengths 0..=12 x buffers 0..=32 x labels {6B, 3B, the all-zero 3B label, broadcast, explicit re-use} x prior {fresh, same label (substitution)} x fragment ids (all 256 for PDU length <= 2, else 3), encap_frag over every position and buffer for PDU lengths 0..=12 x all 256 ids (for small cells), encap_ext over all chains of length <= 2 (thorough 3) x labels x buffers; each packet alone and followed by 6 tails; peek and decap run on the same receiver (context primed for continuation packets); distinct = (kind, label type, peek result)");
     // first calls
-    let cells: Vec<(usize, Lbl, Prior)> = (0..=12usize).flat_map(|p| [L6A, L3A, Lbl::Bcast, Lbl::ReUse].into_iter().flat_map(move |l| [Prior::Fresh, Prior::Same].into_iter().map(move |pr| (p, l, pr)))).filter(|&(_, l, pr)| pr == Prior::Fresh || l.is_addr()).collect();
+    let cells: Vec<(usize, Lbl, Prior)> = (0..=12usize).flat_map(|p| [L6A, L3A, L3Z, Lbl::Bcast, Lbl::ReUse].into_iter().flat_map(move |l| [Prior::Fresh, Prior::Same].into_iter().map(move |pr| (p, l, pr)))).filter(|&(_, l, pr)| pr == Prior::Fresh || l.is_addr()).collect();
     cells.par_iter().for_each(|&(p, l, prior)| {
         let mut acc = Acc::default();
         let pd = pdu(p, 0);
@@ -174,7 +174,7 @@ pub fn run(tier: Tier) -> i32 {
         let ext_wire: usize = c.iter().map(|e| 2 + e.1.len()).sum();
         for p in [0usize, 5] {
             let pd = pdu(p, 0);
-            for (l, prior) in [(L6A, Prior::Fresh), (L3A, Prior::Fresh), (Lbl::Bcast, Prior::Fresh), (L6A, Prior::Same)] {
+            for (l, prior) in [(L6A, Prior::Fresh), (L3A, Prior::Fresh), (L3Z, Prior::Fresh), (Lbl::Bcast, Prior::Fresh), (L6A, Prior::Same)] {
                 for b in (2 + 3 + 2 + ext_wire).saturating_sub(2)..=(2 + 2 + 6 + ext_wire + p + 2) {
                     let mut enc = build_prior(DefaultCrc {}, prior, l);
                     let mut buf = vec![0u8; b];
